@@ -1030,10 +1030,10 @@ pub fn vpar_map_collect<O: Send, F: Fn(usize) -> O + Sync + Send>(n: usize, f: F
     ensures r@.len() == n, forall|i: int| 0 <= i < n ==> call_ensures(f, (i as usize,), #[trigger] r@[i]),
 { unimplemented!() }
 
-// what a single-source closeness kernel returns for `source`: one entry per reported node (ascending, so no node twice)
+// what a single-source closeness kernel returns for `source`: one entry per reported node (no node twice)
 // listing exactly the reachable set with walk lengths (reach_rel)
 pub open spec fn kernel_out<T: Eq + PartialOrd + Send + Sync, A: Clone>(g: Graph<T, A>, weighted: bool, source: usize, sp: Seq<(usize, f64)>) -> bool {
-    &&& forall|a: int, b: int| 0 <= a < b < sp.len() ==> (#[trigger] sp[a]).0 < (#[trigger] sp[b]).0
+    &&& forall|a: int, b: int| 0 <= a < sp.len() && 0 <= b < sp.len() && a != b ==> (#[trigger] sp[a]).0 != (#[trigger] sp[b]).0
     &&& exists|hist: Seq<(usize, f64)>, done: Set<usize>| #[trigger] reach_rel(g, weighted, source, hist, done, sp)
 }
 pub open spec fn entry_ok<T: Eq + PartialOrd + Send + Sync, A: Clone>(g: Graph<T, A>, weighted: bool, wf_improved: bool, i: usize, c: f64) -> bool {
@@ -1072,21 +1072,307 @@ pub proof fn lemma_closeness_map_insert<T: Eq + PartialOrd + Send + Sync, A: Clo
     }
 }
 
-//@ extract fn src/algorithms/centrality/closeness.rs single_source_shortest_path_length_unweighted nobody
-//@ head
-// A5: ASSUMED contract (the level-synchronous BFS clones and drains hash sets; outside the verifier's reach)
+// ---- the hop-count kernel of closeness: level-synchronous search over hash sets, verified in place ----
+// R-ext (A5): `for v in next_level.clone()` (a cloned hash set consumed by value: HashSet::into_iter has no vstd model): the clone is handed over as a
+// vector ASSUMED to hold every element exactly once
 #[verifier::external_body]
+pub fn vset_clone_into_vec(s: &HashSet<usize>) -> (r: Vec<usize>)
+    ensures r@.no_duplicates(), r@.len() == s@.len(), forall|x: usize| s@.contains(x) <==> #[trigger] r@.contains(x),
+{ s.clone().into_iter().collect() }
+pub open spec fn in_results(rv: Seq<(usize, f64)>, x: usize) -> bool {
+    exists|j: int| 0 <= j < rv.len() && (#[trigger] rv[j]).0 == x
+}
+// x is about to be assigned `level`: it is the source at level 0.0 before anything is listed, or one traversal entry away from a listed node whose
+// level is one less (level == that level + 1.0, IEEE)
+pub open spec fn level_just<T: Eq + PartialOrd + Send + Sync, A: Clone>(g: Graph<T, A>, source: usize, rv: Seq<(usize, f64)>, x: usize, level: f64) -> bool {
+    &&& x < g.n()
+    &&& (x == source && level == 0.0f64 && rv.len() == 0) || exists|i: int| #[trigger] extends(g, false, rv, i, x, level)
+}
+// every traversal entry of a listed node leads to a listed node or to a node of the next level
+pub open spec fn level_closed<T: Eq + PartialOrd + Send + Sync, A: Clone>(g: Graph<T, A>, rv: Seq<(usize, f64)>, nl: Set<usize>) -> bool {
+    forall|v: usize, k: int| #[trigger] entry_mark(v, k) && in_results(rv, v) && v < g.n() && 0 <= k < g.successors_vec@[v as int]@.len()
+        ==> in_results(rv, g.successors_vec@[v as int]@[k].node_index) || nl.contains(g.successors_vec@[v as int]@[k].node_index)
+}
+pub proof fn lemma_extends_prefix<T: Eq + PartialOrd + Send + Sync, A: Clone>(g: Graph<T, A>, h0: Seq<(usize, f64)>, h1: Seq<(usize, f64)>, i: int, u: usize, d: f64)
+    requires extends(g, false, h0, i, u, d), h1.len() >= h0.len(), forall|j: int| 0 <= j < h0.len() ==> h1[j] == h0[j],
+    ensures extends(g, false, h1, i, u, d),
+{
+    assert(h1[i] == h0[i]);
+}
+// a set of n positions below n holds every position below n
+pub proof fn lemma_full_usize_set(s: Set<usize>, n: nat)
+    requires forall|w: usize| s.contains(w) ==> w < n, s.len() == n,
+    ensures forall|w: usize| w < n ==> s.contains(w),
+    decreases n
+{
+    if n > 0 {
+        let last = (n - 1) as usize;
+        let s2 = s.remove(last);
+        assert forall|w: usize| s2.contains(w) implies w < (n - 1) as nat by { assert(s.contains(w)); }
+        if !s.contains(last) {
+            assert(s2 =~= s);
+            lemma_bounded_usize_set_len(s2, (n - 1) as nat);
+        } else {
+            lemma_full_usize_set(s2, (n - 1) as nat);
+            assert forall|w: usize| w < n implies s.contains(w) by { if w != last { assert(s2.contains(w)); } }
+        }
+    }
+}
+// what the kernel has established when it returns: the listed nodes are exactly the nodes reachable from the source, each with a walk length
+pub proof fn lemma_level_result<T: Eq + PartialOrd + Send + Sync, A: Clone>(g: Graph<T, A>, source: usize, rv: Seq<(usize, f64)>)
+    requires
+        chain_ok(g, false, source, rv), in_results(rv, source), level_closed(g, rv, Set::<usize>::empty()),
+        forall|a: int, b: int| 0 <= a < rv.len() && 0 <= b < rv.len() && a != b ==> (#[trigger] rv[a]).0 != (#[trigger] rv[b]).0,
+    ensures
+        kernel_out(g, false, source, rv),
+{
+    let nodes = Seq::new(rv.len(), |j: int| rv[j].0);
+    let done = nodes.to_set();
+    assert forall|x: usize| done.contains(x) <==> in_results(rv, x) by {
+        if done.contains(x) { let j = choose|j: int| 0 <= j < nodes.len() && nodes[j] == x; assert(rv[j].0 == x); }
+        if in_results(rv, x) { let j = choose|j: int| 0 <= j < rv.len() && (#[trigger] rv[j]).0 == x; assert(nodes[j] == x); assert(nodes.contains(x)); }
+    }
+    assert forall|j: int| 0 <= j < rv.len() implies rv.contains(#[trigger] rv[j]) && done.contains(rv[j].0) by { assert(in_results(rv, rv[j].0)); }
+    assert(succ_closed(g, false, rv, done)) by {
+        assert forall|v: usize, k: int| #[trigger] entry_mark(v, k) && done.contains(v) && v < g.n() && 0 <= k < g.successors_vec@[v as int]@.len()
+                implies done.contains(g.successors_vec@[v as int]@[k].node_index) || max_cand(g, false, rv, v, k) by {
+            assert(in_results(rv, v));
+        }
+    }
+    assert forall|w: usize| #[trigger] done.contains(w) implies w < g.n() && exists|d: f64| #[trigger] rv.contains((w, d)) && (feq(d, f64_max()) || rv.contains((w, d))) by {
+        let j = choose|j: int| 0 <= j < rv.len() && (#[trigger] rv[j]).0 == w;
+        assert(rv[j] == (w, rv[j].1));
+        assert(rv.contains((w, rv[j].1)));
+    }
+    assert(reach_rel(g, false, source, rv, done, rv));
+}
+
+//@ extract fn src/algorithms/centrality/closeness.rs single_source_shortest_path_length_unweighted props=C03,C06,C20
 //@ rewrite
 -> Vec<(usize, f64)>
 //@ with
 -> (r: Vec<(usize, f64)>)
+//@ rewrite
+let mut seen = IntMap::default();
+//@ with
+let mut seen: IntMap<usize, f64> = IntMap::default();
+//@ rewrite
+let mut level = 0.0;
+    let mut next_level = IntSet::default();
+//@ with
+let mut level: f64 = 0.0;
+    let mut next_level: IntSet<usize> = IntSet::default();
+//@ rewrite
+let mut results = vec![];
+//@ with
+let mut results: Vec<(usize, f64)> = vec![];
+//@ rewrite
+let mut found = vec![];
+        for v in next_level.clone()
+//@ with
+let mut found: Vec<usize> = vec![];
+        let ghost rv0 = results@;
+        let ghost seen0 = seen@;
+        let nlv = vset_clone_into_vec(&next_level);
+        let ghost nl = nlv@;
+        proof {
+            if rv0.len() == 0 {
+                assert(next_level@ =~= set![source]);
+                assert(set![source].len() == 1);
+                assert(nl.contains(source));
+                let k = choose|k: int| 0 <= k < nl.len() && nl[k] == source;
+            }
+            assert forall|x: usize| #[trigger] nlset0.contains(x) implies exists|k: int| 0 <= k < nl.len() && #[trigger] nl[k] == x by {
+                assert(nl.contains(x));
+                let k = choose|k: int| 0 <= k < nl.len() && nl[k] == x;
+                assert(nl[k] == x);
+            }
+        }
+        for v in itv: nlv
+//@ rewrite
+for v in found {
+//@ with
+let ghost fv = found@;
+        let ghost rv1 = results@;
+        for v in itf: found
+            invariant
+                graph.wf_nodes(), graph.wf_rows(), fv == itf.seq(), rv1 == results@,
+                forall|t: int| 0 <= t < fv.len() ==> #[trigger] fv[t] < graph.n(),
+                fv.len() == 0 ==> next_level@ =~= Set::<usize>::empty(),
+                forall|x: usize| #[trigger] next_level@.contains(x) ==> x < graph.n() && exists|t: int, k: int| 0 <= t < itf.index@ && 0 <= k < graph.successors_vec@[fv[t] as int]@.len()
+                    && (#[trigger] graph.successors_vec@[fv[t] as int]@[k]).node_index == x,
+                forall|t: int, k: int| 0 <= t < itf.index@ && 0 <= k < graph.successors_vec@[fv[t] as int]@.len()
+                    ==> next_level@.contains((#[trigger] graph.successors_vec@[fv[t] as int]@[k]).node_index),
+        {
+//@ rewrite
+for w in adj {
+//@ with
+let ghost nl1 = next_level@;
+            for w in itw: adj
+                invariant
+                    graph.wf_nodes(), graph.wf_rows(), v < graph.n(), *adj == graph.successors_vec@[v as int],
+                    forall|x: usize| #[trigger] next_level@.contains(x) ==> nl1.contains(x) || exists|k: int| 0 <= k < itw.index@ && (#[trigger] adj@[k]).node_index == x,
+                    forall|x: usize| nl1.contains(x) ==> next_level@.contains(x),
+                    forall|k: int| 0 <= k < itw.index@ ==> next_level@.contains((#[trigger] adj@[k]).node_index),
+            {
+//@ rewrite
+level += 1.0;
+//@ with
+proof {
+            // the next round: every node of the new level is one entry away from a node listed with the current level
+            assert forall|x: usize| #[trigger] next_level@.contains(x) implies level_just(*graph, source, results@, x, fadd(level, 1.0f64)) by {
+                let (t, k) = choose|t: int, k: int| 0 <= t < fv.len() && 0 <= k < graph.successors_vec@[fv[t] as int]@.len()
+                    && (#[trigger] graph.successors_vec@[fv[t] as int]@[k]).node_index == x;
+                assert(results@[rv0.len() + t] == (fv[t], level));
+                assert(extends(*graph, false, results@, rv0.len() + t, x, fadd(level, 1.0f64)));
+            }
+            assert(level_closed(*graph, results@, next_level@)) by {
+                assert forall|v: usize, k: int| #[trigger] entry_mark(v, k) && in_results(results@, v) && v < graph.n() && 0 <= k < graph.successors_vec@[v as int]@.len()
+                        implies in_results(results@, graph.successors_vec@[v as int]@[k].node_index) || next_level@.contains(graph.successors_vec@[v as int]@[k].node_index) by {
+                    let u = graph.successors_vec@[v as int]@[k].node_index;
+                    if in_results(rv0, v) {
+                        // listed before this round: its entries led into the list or into the level just processed, all of which is listed now
+                        assert(entry_mark(v, k));
+                        if !in_results(rv0, u) {
+                            assert(nlset0.contains(u));
+                            assert(seen@.contains_key(u));
+                        } else {
+                            let j = choose|j: int| 0 <= j < rv0.len() && (#[trigger] rv0[j]).0 == u;
+                            assert(results@[j] == rv0[j]);
+                        }
+                    } else {
+                        // found in this round: its entries were just put into the next level
+                        let j = choose|j: int| 0 <= j < results@.len() && (#[trigger] results@[j]).0 == v;
+                        assert(j >= rv0.len()) by { if j < rv0.len() { assert(rv0[j] == results@[j]); assert(in_results(rv0, v)); } }
+                        let t = j - rv0.len();
+                        assert(results@[rv0.len() + t] == (fv[t], level));
+                        assert(next_level@.contains(graph.successors_vec@[fv[t] as int]@[k].node_index));
+                    }
+                }
+            }
+        }
+        level = level + 1.0;
 //@ spec
     requires
         graph.wf_nodes(),
         graph.wf_rows(),
         source < graph.n(),
     ensures
+        // [C06.kernel.unweighted_reports_the_reachable_set_with_hop_counts, C03.consumers.closeness_unweighted_reads_successor_rows]
+        // one entry per reported node (no node twice); the reported nodes are exactly the nodes reachable from the source over the rows of
+        // successors_vec, each with the length (1.0 per entry, left fold of f64 `+`) of a walk from the source
         kernel_out(*graph, false, source, r@),
+//@ before while next_level.len() > 0 {
+    proof {
+        assert(next_level@ =~= set![source]);
+        assert(level_closed(*graph, results@, next_level@));
+    }
+//@ loop 1
+        invariant
+            graph.wf_nodes(), graph.wf_rows(), source < graph.n(), num_nodes == graph.n(),
+            forall|x: usize| #[trigger] seen@.contains_key(x) <==> in_results(results@, x),
+            forall|x: usize| #[trigger] seen@.contains_key(x) ==> x < graph.n(),
+            forall|a: int, b: int| 0 <= a < results@.len() && 0 <= b < results@.len() && a != b ==> (#[trigger] results@[a]).0 != (#[trigger] results@[b]).0,
+            chain_ok(*graph, false, source, results@),
+            forall|x: usize| #[trigger] next_level@.contains(x) ==> level_just(*graph, source, results@, x, level),
+            level_closed(*graph, results@, next_level@),
+            results@.len() == 0 ==> next_level@ =~= set![source],
+            results@.len() > 0 ==> in_results(results@, source),
+            seen@.dom().len() <= graph.n(),
+        // [C20.closeness_hop_kernel.terminates] a round marks a new node (there are n) or leaves the next level empty
+        decreases graph.n() - seen@.dom().len(), next_level@.len(),
+//@ before let mut found = vec![];
+        let ghost nlset0 = next_level@;
+//@ loop 2
+            invariant
+                graph.wf_nodes(), graph.wf_rows(), source < graph.n(),
+                nl == itv.seq(), nl.no_duplicates(), forall|x: usize| nlset0.contains(x) <==> #[trigger] nl.contains(x),
+                forall|j: int| 0 <= j < rv0.len() ==> results@[j] == rv0[j],
+                forall|x: usize| #[trigger] seen@.contains_key(x) <==> in_results(results@, x),
+                forall|x: usize| #[trigger] seen@.contains_key(x) ==> x < graph.n(),
+                forall|a: int, b: int| 0 <= a < results@.len() && 0 <= b < results@.len() && a != b ==> (#[trigger] results@[a]).0 != (#[trigger] results@[b]).0,
+                chain_ok(*graph, false, source, results@),
+                forall|x: usize| #[trigger] nlset0.contains(x) ==> level_just(*graph, source, rv0, x, level),
+                // every node of the level is listed already, or still to come in this loop
+                forall|x: usize| #[trigger] nlset0.contains(x) ==> seen@.contains_key(x) || exists|k: int| itv.index@ <= k < nl.len() && #[trigger] nl[k] == x,
+                // the nodes found in this round are exactly the entries listed since it began, in order, each with the current level
+                results@.len() == rv0.len() + found@.len(),
+                forall|t: int| 0 <= t < found@.len() ==> #[trigger] results@[rv0.len() + t] == (found@[t], level),
+                forall|t: int| 0 <= t < found@.len() ==> #[trigger] found@[t] < graph.n(),
+                seen@.dom().len() == seen0.dom().len() + found@.len(),
+                rv0.len() == 0 ==> nl.len() == 1 && nl[0] == source,
+//@ before if !seen.contains_key(&v) {
+            let ghost r0 = results@;
+            let ghost f0 = found@;
+            let ghost s0 = seen@;
+//@ after results.push((v, level));
+                proof {
+                    assert(nl[itv.index@ as int] == v);
+                    assert(nl.contains(v));
+                    assert(level_just(*graph, source, rv0, v, level));
+                    if !(v == source && level == 0.0f64 && rv0.len() == 0) {
+                        let i = choose|i: int| #[trigger] extends(*graph, false, rv0, i, v, level);
+                        lemma_extends_prefix(*graph, rv0, r0, i, v, level);
+                    } else {
+                        assert(itv.index@ == 0);
+                    }
+                    assert(results@ == r0.push((v, level)));
+                    assert(found@ == f0.push(v));
+                    lemma_chain_push(*graph, false, source, r0, v, level);
+                    assert forall|x: usize| #[trigger] seen@.contains_key(x) <==> in_results(results@, x) by {
+                        if in_results(r0, x) { let j = choose|j: int| 0 <= j < r0.len() && (#[trigger] r0[j]).0 == x; assert(results@[j] == r0[j]); }
+                        if x == v { assert(results@[r0.len() as int].0 == v); }
+                        if in_results(results@, x) && x != v { let j = choose|j: int| 0 <= j < results@.len() && (#[trigger] results@[j]).0 == x; assert(r0[j] == results@[j]); }
+                    }
+                    assert forall|a: int, b: int| 0 <= a < results@.len() && 0 <= b < results@.len() && a != b implies (#[trigger] results@[a]).0 != (#[trigger] results@[b]).0 by {
+                        if a < r0.len() && b < r0.len() { assert(r0[a] == results@[a] && r0[b] == results@[b]); }
+                        else if a < r0.len() { assert(r0[a] == results@[a]); assert(in_results(r0, r0[a].0)); }
+                        else { assert(r0[b] == results@[b]); assert(in_results(r0, r0[b].0)); }
+                    }
+                    assert forall|t: int| 0 <= t < found@.len() implies #[trigger] results@[rv0.len() + t] == (found@[t], level) by {
+                        if t < f0.len() { assert(results@[rv0.len() + t] == r0[rv0.len() + t]); assert(found@[t] == f0[t]); }
+                    }
+                    assert(s0.dom().insert(v) =~= seen@.dom());
+                }
+//@ bodyend 2
+            proof {
+                assert forall|x: usize| #[trigger] nlset0.contains(x) implies seen@.contains_key(x) || exists|k: int| itv.index@ + 1 <= k < nl.len() && #[trigger] nl[k] == x by {
+                    if !seen@.contains_key(x) {
+                        assert(!s0.contains_key(x));
+                        let k = choose|k: int| itv.index@ <= k < nl.len() && #[trigger] nl[k] == x;
+                        assert(k != itv.index@);
+                    }
+                }
+            }
+//@ before if seen.len() == num_nodes {
+        proof {
+            // every node of the level just processed is listed now
+            assert forall|x: usize| nlset0.contains(x) implies in_results(results@, x) by {
+                assert(seen@.contains_key(x));
+            }
+            lemma_bounded_usize_set_len(seen@.dom(), graph.n());
+        }
+//@ before return results;
+            proof {
+                // every node is listed: the list is trivially closed under the traversal rows
+                lemma_full_usize_set(seen@.dom(), graph.n());
+                assert(level_closed(*graph, results@, Set::<usize>::empty())) by {
+                    assert forall|v: usize, k: int| #[trigger] entry_mark(v, k) && in_results(results@, v) && v < graph.n() && 0 <= k < graph.successors_vec@[v as int]@.len()
+                            implies in_results(results@, graph.successors_vec@[v as int]@[k].node_index) by {
+                        assert(seen@.dom().contains(graph.successors_vec@[v as int]@[k].node_index));
+                    }
+                }
+                assert(in_results(results@, source)) by { if results@.len() == 0 { assert(nlset0.contains(source)); } }
+                lemma_level_result(*graph, source, results@);
+            }
+//@ tail
+    // (reached when the next level is empty)
+//@ before =    results
+    proof {
+        assert(next_level@ =~= Set::<usize>::empty());
+        assert(results@.len() > 0);
+        lemma_level_result(*graph, source, results@);
+    }
 //@ end
 
 //@ extract fn src/algorithms/centrality/closeness.rs closeness_centrality props=C06,C20
